@@ -75,7 +75,9 @@ def run_path(spec, fnode, script):
   for p, s in list(spec.params) + list(spec.free):
     v = ex.fresh(s, p)
     old_env.set(p, v)
-    if p in spec.assigns:
+    if s is NONE and p in spec.bindings:
+      env.set(p, spec.bindings[p])  # e.g. `cls` of a classmethod: the class, as bound by the sidecar
+    elif p in spec.assigns:
       env.set(p, ex.new_box(v))
     else:
       env.set(p, v)
